@@ -732,7 +732,7 @@ pub fn run(run: &Run) -> i32 {
         if run.thorough() {
             for m in m2(3, 5) {
                 for k in [1, 3] {
-                    work.push((Case { m: m.clone(), mname: format!("3x5:{}", m.alist_like()), order: scrambled(&m, k) }, a5.clone()));
+                    work.push((Case { m: m.clone(), mname: format!("3x5:{}", m.alist_like()), order: scrambled(&m, k) }, a3.clone()));
                 }
             }
         }
@@ -758,7 +758,6 @@ pub fn run(run: &Run) -> i32 {
                 ((3, 5), V5.to_vec(), vec![1]),
                 ((3, 6), V3.to_vec(), vec![2]),
                 ((4, 5), V3.to_vec(), vec![1]),
-                ((4, 6), V3.to_vec(), vec![3]),
             ]
         } else {
             vec![
